@@ -348,6 +348,45 @@ def simplify(conds):
                 out = keep
                 changed = True
                 break
+    # several pattern tests of one subject (an outer match, then a helper matching the same value again): keep their meet
+    by = {}
+    for i, (s_, p_) in enumerate(out):
+        if isinstance(p_, str):
+            by.setdefault(s_, []).append(i)
+    drop = set()
+    repl = {}
+    for s_, idxs in by.items():
+        if len(idxs) < 2:
+            continue
+        pos = [(i, set(out[i][1].split(' | '))) for i in idxs if not out[i][1].startswith('not ') and out[i][1] != '_']
+        neg = [(i, set(out[i][1][4:].split(' | '))) for i in idxs if out[i][1].startswith('not ')]
+        wild = [i for i in idxs if out[i][1] == '_']
+        if pos:
+            meet = set(pos[0][1])
+            for _, alts in pos[1:]:
+                meet &= alts
+            for _, ex in neg:
+                meet -= ex
+            if not meet:
+                continue  # contradictory path: leave as is
+            first = min(idxs)
+            order = [a for a in out[pos[0][0]][1].split(' | ') if a in meet]
+            repl[first] = (s_, ' | '.join(order))
+            drop |= set(idxs) - {first}
+        elif len(neg) > 1:
+            first = min(i for i, _ in neg)
+            allx = []
+            for i, ex in sorted(neg):
+                for a in out[i][1][4:].split(' | '):
+                    if a not in allx:
+                        allx.append(a)
+            repl[first] = (s_, 'not ' + ' | '.join(allx))
+            drop |= set(i for i, _ in neg) - {first}
+            drop |= set(wild)
+        elif neg and wild:
+            drop |= set(wild)
+    if repl or drop:
+        out = [repl.get(i, c) for i, c in enumerate(out) if i not in drop]
     # drop exact duplicates, keep first
     seen = set()
     res = []
